@@ -701,7 +701,7 @@ Section ProcessAttribution.
 Variable SC : schema.
 Variables ic ins : bool.
 
-Lemma fix_all_is_fix_forest F : exists n, C07.fix_all SC F = fix_forest n F.
+Lemma fix_all_is_fix_forest F : exists n, C07.fix_all F = fix_forest n F.
 Proof. eexists. reflexivity. Qed.
 
 Lemma inv_rounds : forall fuel round F err P mods F' err' P' mods',
